@@ -187,8 +187,37 @@ func (e *daemonEngine) body(res *RunResult) {
 		at  time.Time
 		act *Act
 		rs  *ResharePlan
+		fn  func()
 	}
 	var tl []timed
+	if fp := sc.Follow; fp != nil {
+		for _, l := range fp.Liars {
+			e.w.Register(e.liarAddr(l), &liarEP{e: e, kind: l, addr: e.liarAddr(l)})
+		}
+		tl = append(tl, timed{at: e.start.Add(time.Duration(fp.AtMs) * time.Millisecond), fn: func() {
+			var peers []string
+			for _, p := range fp.Peers {
+				peers = append(peers, e.nodes[p].addr)
+			}
+			for _, l := range fp.Liars {
+				peers = append(peers, e.liarAddr(l))
+			}
+			if len(fp.Order) == len(peers) {
+				o := make([]string, len(peers))
+				for i, j := range fp.Order {
+					o[i] = peers[j]
+				}
+				peers = o
+			}
+			go e.follow(e.nodes[fp.Node], fp.UpTo, peers, fp.WrongHash)
+		}})
+	}
+	if cp := sc.Check; cp != nil {
+		for _, l := range cp.Liars {
+			e.w.Register(e.liarAddr(l), &liarEP{e: e, kind: l, addr: e.liarAddr(l)})
+		}
+		tl = append(tl, timed{at: e.start.Add(time.Duration(cp.AtMs) * time.Millisecond), fn: func() { go e.checkChain(e.nodes[cp.Node], cp) }})
+	}
 	for i := range sc.Script {
 		a := &sc.Script[i]
 		tl = append(tl, timed{at: e.start.Add(time.Duration(a.AtMs) * time.Millisecond), act: a})
@@ -204,7 +233,9 @@ func (e *daemonEngine) body(res *RunResult) {
 			time.Sleep(d)
 		}
 		synctest.Wait()
-		if x.act != nil {
+		if x.fn != nil {
+			x.fn()
+		} else if x.act != nil {
 			e.apply(*x.act)
 		} else {
 			// the operator drives the resharing on the side: faults and clients keep their own schedule
@@ -245,6 +276,13 @@ func (e *daemonEngine) body(res *RunResult) {
 	}
 	res.VirtualMs = time.Since(e.start).Milliseconds()
 	e.finalChecks(healAt, res)
+	if sc.Follow != nil {
+		fn := e.nodes[sc.Follow.Node]
+		e.checkFollower(fn, sc.Follow, healAt)
+		if fn.followCancel != nil {
+			fn.followCancel()
+		}
+	}
 	if sc.Crash != nil {
 		n := e.nodes[sc.Crash.Node]
 		e.rec.Count("probe:target_persistence_ops", n.pc.count)
